@@ -163,6 +163,11 @@ def handle (getK : Json → Except String K) (putK : K → Json) (sqrt : K → K
       let S := collSys sqrt dt interp vol noise.toList ncomps rate real maxiter (maxerr * maxerr)
       if S.n ≠ n then throw s!"collSys: {S.n} entries, state has {n}"
       pure S
+    else if vkind = "field" then do
+      let noise ← fldKs getK vj "noise"
+      let S := fieldSys sqrt dt interp vol noise.toList ncomp rate real maxiter (maxerr * maxerr)
+      if S.n ≠ n then throw s!"fieldSys: {S.n} entries, state has {n}"
+      pure S
     else if vkind = "quad" then do
       let g0 ← fldKs getK vj "g0"
       let g2 ← fldKs getK vj "g2"
